@@ -375,3 +375,12 @@ Theorem multiply_outer_total :
   forall (x y : list R), sumf (outer BMul x y) = (sumf x * sumf y)%R.
 Proof. exact outer_mul_sum. Qed.
 Print Assumptions multiply_outer_total.
+
+(* reduce on ARRAY-weighted discretized spaces: NumPy returns, ODL raises
+   (finding discr-reduce-array-weighting; not touched by the proposed repairs) *)
+Theorem discr_reduce_array_weighting_refuted :
+  (exists l st', raw_ufunc castQ NPadd st_d MReduce kwa0 [RopBuf 0] [None] = Ok (l, st')
+                 /\ a_data (rd st' 1) = [3; 5; 7]%Q)
+  /\ disc_ufunc castQ as_found NPadd st_d d23w 1 MReduce [OpDisc d23w 0] kwa0 [] = Err EValue
+  /\ disc_ufunc castQ repaired NPadd st_d d23w 1 MReduce [OpDisc d23w 0] kwa0 [] = Err EValue.
+Proof. exact C17.Refuted.discr_reduce_array_weighting_refuted. Qed.
